@@ -70,7 +70,8 @@ ListOK(obs, L) ==   \* L: [id, inline, other, items]
   ELSE /\ Cardinality(Inst(obs, L.id)) = 1
        /\ \A i \in Inst(obs, L.id) :
              /\ obs.instances[i].src = "" /\ obs.instances[i].has_items
-             \* or_other appends exactly one 'other' choice after the list's own choices
+             \* or_other appends exactly one 'other' choice after the list's own choices -- unless the list already
+             \* has a choice named 'other' (L.other is then FALSE and the list's own rows are all there is)
              /\ Len(obs.instances[i].items) = Len(L.items) + (IF L.other THEN 1 ELSE 0)
              /\ \A k \in 1..Len(L.items) : ItemOK(obs.instances[i].items[k], L.items[k])
              /\ (L.other => <<"name", "other">> \in SeqToSet(obs.instances[i].items[Len(L.items) + 1]))
